@@ -75,7 +75,7 @@ func GenEventLoopPlan(seed uint64) *Plan {
 	tasks := g.rng(1, 4)
 	for i := 0; i < nops; i++ {
 		op := SmallOp{Task: g.intn(tasks)}
-		switch g.weighted(40, 22, 10, 8, 6, 4, 4, 3, 3, 4) {
+		switch g.weighted(40, 22, 10, 8, 6, 4, 4, 3, 3, 4, 4) {
 		case 0:
 			op.Op, op.A = "add", g.intn(3)
 		case 1:
@@ -96,6 +96,8 @@ func GenEventLoopPlan(seed uint64) *Plan {
 			op.Op, op.A = "sleep", g.rng(1, 30)
 		case 9:
 			op.Op, op.A, op.B = "idlerace", g.intn(3), g.intn(3) // a producer adds while the consumer is between "queue empty" and waiting
+		case 10:
+			op.Op, op.A = "pushrace", g.intn(3) // a producer goroutine is held right after its push while the consumer runs
 		}
 		p.Ops = append(p.Ops, op)
 	}
@@ -190,6 +192,12 @@ type elWorld struct {
 	parkArmed       bool
 	parked          bool
 	parkCh          chan struct{}
+	pushArmed       bool // pushrace: the producer goroutine pGID parks at the "pushed" point
+	pushParked      bool
+	pushCh          chan struct{}
+	pGID            uint64
+	ordinaryDisp    map[int]bool // events for which an ordinary handler has run in the dispatch phase
+	lateObserver    string
 	tickSeen        []int // ticker event ids in the order they were handled
 	sleptMs         int
 	tickerMs        int
@@ -275,6 +283,15 @@ func (w *elWorld) invoked(h *elHandler, e any) {
 		return
 	}
 	w.actual[k] = append(w.actual[k], h.id)
+	if w.ordinaryDisp == nil {
+		w.ordinaryDisp = map[int]bool{}
+	}
+	if !h.inAdd && !h.prio {
+		w.ordinaryDisp[evID(e)] = true
+	}
+	if h.inAdd && h.prio && w.ordinaryDisp[evID(e)] && w.lateObserver == "" {
+		w.lateObserver = fmt.Sprintf("prioritised run-in-AddEvent handler h%d saw event %d after an ordinary handler had already handled it", h.id, evID(e))
+	}
 	if !h.inAdd && !w.seenDisp[evID(e)] {
 		w.seenDisp[evID(e)] = true
 		w.dispOrder = append(w.dispOrder, evID(e))
@@ -567,7 +584,24 @@ func (w *elWorld) runConsumer() {
 		w.register(t, 0) // and one per event type that stays: every event is observably dispatched
 	}
 	w.parkCh = make(chan struct{})
+	w.pushCh = make(chan struct{})
 	eventloop.VerifYield = func(point string) {
+		if point == "pushed" {
+			w.mu.Lock()
+			park := w.pushArmed && goid() == w.pGID
+			if park {
+				w.pushArmed = false
+				w.pushParked = true
+			}
+			w.mu.Unlock()
+			if park {
+				<-w.pushCh
+			}
+			return
+		}
+		if point != "run-idle" {
+			return
+		}
 		w.mu.Lock()
 		park := w.parkArmed
 		if park {
@@ -596,6 +630,9 @@ func (w *elWorld) runConsumer() {
 		}
 		if w.stalled != w.stalledModel {
 			w.viol("C14/order", "the consumer is blocked inside a handler: %v; the reference expects: %v (an event was lost, duplicated or reordered)", w.stalled, w.stalledModel)
+		}
+		if w.lateObserver != "" {
+			w.viol("C14/priority", "%s", w.lateObserver)
 		}
 		w.mu.Unlock()
 	}
@@ -630,6 +667,38 @@ func (w *elWorld) runConsumer() {
 				w.mu.Lock()
 				w.register(op.A, op.B&3)
 				w.mu.Unlock()
+			}
+		case "pushrace":
+			if w.stalledModel || w.canceled {
+				continue
+			}
+			{
+				e := mkEv(op.A, w.nextEv)
+				w.nextEv++
+				w.logf("op%d pushrace %T%v", i, e, e)
+				w.mu.Lock()
+				w.add(e)
+				w.pushArmed, w.pGID = true, 0
+				w.mu.Unlock()
+				pdone := make(chan struct{})
+				go func() {
+					w.mu.Lock()
+					w.pGID = goid()
+					w.mu.Unlock()
+					w.el.AddEvent(e)
+					close(pdone)
+				}()
+				synctest.Wait() // the producer is held just behind its push; the consumer has done all it can
+				w.mu.Lock()
+				held := w.pushParked
+				w.pushArmed, w.pushParked = false, false
+				w.mu.Unlock()
+				if held {
+					w.st.Faults["producer-held-after-push"]++
+					w.pushCh <- struct{}{}
+				}
+				<-pdone
+				settle()
 			}
 		case "idlerace":
 			if w.stalledModel || w.canceled {
